@@ -130,6 +130,8 @@ def run_case(col, case):
         return run_case_d(col, case)
     if part == "E":
         return run_case_e(col, case)
+    if part == "F":
+        return run_case_f(col, case)
     if part == "A":          # Padding.pad / get_padded_size / to_exact / resolve directly
         w, h = case["size"]
         fill = case["fill"]
@@ -321,6 +323,131 @@ def run_case_d(col, case):
         twin.close()
 
 
+F_VIAS = ("resolve", "to_exact", "pad", "render", "iter", "set_padding", "draw", "draw-animated")
+
+
+def run_case_f(col, case):
+    """Part F: AlignedPadding and subclasses of it (a trivial one; one overriding the documented
+    `_get_exact_dimensions_` hook - placement by thirds) x relative / absolute dimensions x every way a padding
+    reaches the output (resolve, to_exact, pad, Renderable.render, RenderIterator(), set_padding, draw() still and
+    animated): an instance with relative dimensions behaves exactly as the same class with the equivalent
+    absolute dimensions max(terminal + d, 1) - same class after resolve(), same placement rule, same box."""
+    import os
+
+    from .. import c06_common as cc
+
+    L = world.load()
+    P = L.padding
+    Size = L.geometry.Size
+    ns = classes()
+    w, h = case["size"]
+    term = tuple(case["term"])
+    pw, ph = case["dims"]
+    ha, va = case["align"]
+    fill, via, padcls = case["fill"], case["via"], case["padcls"]
+    rel = pw <= 0 or ph <= 0
+    ew = pw if pw > 0 else max(term[0] + pw, 1)
+    eh = ph if ph > 0 else max(term[1] + ph, 1)
+    W, H = max(ew, w), max(eh, h)
+    if padcls == "thirds":
+        left, top = (W - w) // 3, (H - h) - (H - h) // 3
+    else:
+        left, top, _, _ = ref_offsets(w, h, W, H, ha, va)
+    right, bottom = W - w - left, H - h - top
+    sig = dict(part="F", padcls=padcls, via=via, relative=rel)
+    jcase = dict(case, pad="aligned")
+
+    def bad(clause, what):
+        col.violation(dict(sig, clause=clause), what, case)
+
+    if via in ("draw", "draw-animated"):
+        frames = 2 if via == "draw-animated" else 1
+        c = dict(api="new", cls="TextR", mode=case["kind"], frames=frames, loops=1, cache=False, size=(w, h),
+                 pad=("aligned", pw, ph, ha, va, fill), padcls=padcls, term=term, row0=0, isatty=True,
+                 allow_scroll=True)
+        exp = cc.expected(c)
+        if (exp.W, exp.H, exp.left, exp.top) != (W, H, left, top):
+            raise world.HarnessError("C05 part F: reference geometries disagree")
+        failed = []
+
+        def on_frame(run, j):
+            if not failed:
+                cc.judge_screen(run, exp, j % frames, lambda cl, wh: (failed.append(cl), bad("frame-" + cl, wh)),
+                                final=False, scrolls_expected=run.term.scrolls)
+
+        run = cc.execute(c, on_frame=on_frame)
+        if run.exc is not None:
+            bad("exception", f"draw() with {padcls} padding {pw}x{ph} raised {run.exc!r}")
+        elif not failed:
+            cc.judge_screen(run, exp, frames - 1, lambda cl, wh: bad("final-" + cl, wh), final=True,
+                            scrolls_expected=run.term.scrolls)
+        return
+    world.setup("other", *term)
+    cls = cc.padding_class(padcls)
+    pad = cls(pw, ph, P.HAlign(ha), P.VAlign(va), fill)
+    r = ns.make(2, (w, h), mode=case["kind"])
+    inner = str(r)
+    try:
+        if via in ("resolve", "to_exact", "pad"):
+            res = pad.resolve(os.terminal_size(term))
+            if type(res) is not cls:
+                bad("resolve-keeps-class", f"resolve() of a {cls.__name__} returned a {type(res).__name__}")
+            if (res.width, res.height, res.h_align, res.v_align, res.fill, res.relative) != \
+                    (ew, eh, pad.h_align, pad.v_align, fill, False):
+                bad("resolve", f"resolve({term}) of {pad!r} gave {res!r}, expected {ew}x{eh}")
+                return
+            if not rel and res is not pad:
+                bad("resolve-absolute-identity", "resolve() of an absolute padding returned another object")
+            if via == "pad":
+                got = res.get_padded_size(Size(w, h))
+                if tuple(got) != (W, H):
+                    bad("get_padded_size", f"get_padded_size={tuple(got)} expected {(W, H)}")
+            if via == "to_exact":
+                ex = res.to_exact(Size(w, h))
+                if ex.dimensions != (left, top, right, bottom) or ex.fill != fill:
+                    bad("to_exact", f"to_exact={ex.dimensions} expected {(left, top, right, bottom)}")
+                res = ex
+            out = res.pad(inner, Size(w, h))
+            size = (W, H)
+        elif via == "render":
+            fr = r.render(None, pad)
+            out, size = fr.render_output, tuple(fr.render_size)
+        else:
+            if via == "iter":
+                it = L.render.RenderIterator(r, None, pad, 1, False)
+            else:
+                it = L.render.RenderIterator(r, None, P.ExactPadding(1, 0, 0, 1, "y"), 1, False)
+                it.set_padding(pad)
+            try:
+                fr = next(it)
+            finally:
+                it.close()
+            out, size = fr.render_output, tuple(fr.render_size)
+    except P.RelativePaddingDimensionError as e:
+        bad("relative-not-resolved", f"{type(e).__name__} through {via} for a {cls.__name__} with dimensions "
+            f"{pw}x{ph} on terminal {term}")
+        return
+    if size != (W, H):
+        bad("frame-size", f"padded size {size} expected {(W, H)}")
+    judge(col, dict(jcase, part="F", kind=f"{padcls}/{via}"), out, inner, "other", w, h, W, H, left, top, fill, False)
+    if (W, H) != (w, h):
+        col.add_distinct(h64(("F", out)))
+
+
+def build_cases_f(quick):
+    cases = []
+    dims = [(-2, -1), (0, 0), (0, 4), (5, -2), (5, 4), (-9, -9), (2, -3)]
+    aligns = [(0, 0), (1, 1), (2, 2)] if quick else [(a, b) for a in range(3) for b in range(3)]
+    for padcls, d, al, fill in itertools.product(("base", "trivial", "thirds"), dims, aligns, (" ", "")):
+        for size, kind, via in itertools.product([(2, 2), (1, 1), (3, 2)], ("plain", "sgr"), F_VIAS):
+            for term in ([(6, 5)] if quick else [(6, 5), (8, 6)]):
+                if quick and kind == "sgr" and via not in ("render", "draw-animated"):
+                    continue
+                cases.append(dict(part="F", padcls=padcls, dims=d, align=al, fill=fill, size=size, kind=kind, via=via,
+                                  term=term))
+    return cases
+
+
 E_COMBOS = [("block", "other", None), ("block", "kitty", None),
             ("kitty", "kitty", "lines"), ("kitty", "kitty", "whole"), ("kitty", "konsole", "lines"),
             ("iterm2", "iterm2", "lines"), ("iterm2", "iterm2", "whole"), ("iterm2", "wezterm", "lines"),
@@ -470,6 +597,7 @@ def build_cases(tier):
                                               align=(ha, va), pad=(14, 9), cached=cached, repeat=2,
                                               schedule=schedule))
     cases += build_cases_e(quick)
+    cases += build_cases_f(quick)
     return cases
 
 
@@ -512,7 +640,8 @@ def run(ctx):
                 "distinct = distinct padded outputs in which the padding changed the output")
     ctx.coverage.update(parts=dict(A="Padding classes", B="Renderable.render / RenderIterator", C="format spec",
                                    D="ImageIterator frames over a resized terminal",
-                                   E="old-API draw() (still / animated) judged on the screen per frame"),
+                                   E="old-API draw() (still / animated) judged on the screen per frame",
+                                   F="AlignedPadding subclasses x relative/absolute x every way to the output"),
                         cases=len(cases))
     ctx.assumptions += ["vterm (vlib/vterm.py) is the terminal; a render is anchored with the line-start column "
                         "at the anchor column (DESIGN 2.2)", "PIL"]
